@@ -7,8 +7,9 @@
 -/
 import SoundeventModel.Encoding
 import Proofs.Lemmas.Encoding
+import Proofs.Lemmas.EncodingPaths
 namespace SE.Proofs.C19
-open SE SE.Encoding SE.Proofs.Lemmas.Encoding
+open SE SE.Encoding SE.Proofs.Lemmas.Encoding SE.Proofs.Lemmas.EncodingPaths
 
 /-! ### the encoder -/
 
@@ -789,6 +790,220 @@ theorem C19_pyhash_reads_only (hf : String → Option (List String)) (H : PyHash
   exact List.map_congr_left fun f hfm => by rw [hagree f hfm]
 
 
+/-! ### follow-up 3: construction paths (extras order, call styles) and histories -/
+
+/-- Python's `dict.__eq__` on the extras of two terms is "the same items in any order" -/
+theorem C19_extras_eq_iff_perm (a b : Extras) (ha : (a.map (·.1)).Nodup) (hb : (b.map (·.1)).Nodup) :
+    dictEqv a b = true ↔ a.Perm b :=
+  dictEqv_iff_perm ha hb
+
+/-- … hence equality of the key-sorted item lists: the walk of the harness (`sorted(extra.items())`)
+    loses nothing `==` sees and keeps nothing it ignores -/
+theorem C19_extras_canonical (a b : Extras) (ha : (a.map (·.1)).Nodup) (hb : (b.map (·.1)).Nodup) :
+    dictEqv a b = true ↔ canonExtras a = canonExtras b := by
+  rw [dictEqv_iff_perm ha hb, perm_iff_canon_eq ha]
+
+/-- two terms however constructed (extras by keyword, from a dict, from JSON, by `model_copy(update=…)`,
+    in any order): pydantic's `==` holds iff the canonical terms of the model are equal; equal terms then
+    have the same hash key (the name), so do the tags built on them, and the encoder of the vocabulary
+    `[Tag(a, v)]` finds `Tag(b, v)` at index 0 -/
+theorem C19_term_paths (a b : RawTerm) (ha : a.wf) (hb : b.wf) :
+    (a.pyEq b = true ↔ a.canon = b.canon) ∧
+    (a.pyEq b = true → a.canon.hashKey = b.canon.hashKey ∧
+      ∀ v : String, (⟨a.canon, v⟩ : Tag).hashKey = (⟨b.canon, v⟩ : Tag).hashKey ∧
+        encode [⟨a.canon, v⟩] ⟨b.canon, v⟩ = some 0) := by
+  have key : a.pyEq b = true ↔ a.canon = b.canon := by
+    unfold RawTerm.pyEq RawTerm.canon
+    rw [Bool.and_eq_true, decide_eq_true_eq, C19_extras_canonical _ _ ha hb]
+    constructor
+    · rintro ⟨h1, h2⟩
+      have : a.core.noExtra = b.core.noExtra := h1
+      cases hac : a.core; cases hbc : b.core
+      simp only [hac, hbc, Term.noExtra, Term.mk.injEq] at this ⊢
+      simp only [this, h2, and_self]
+    · intro h
+      cases hac : a.core; cases hbc : b.core
+      simp only [hac, hbc, Term.noExtra, Term.mk.injEq] at h ⊢
+      simp only [h, and_self]
+  refine ⟨key, fun h => ?_⟩
+  have e := key.mp h
+  refine ⟨by rw [e], fun v => ⟨by rw [e], ?_⟩⟩
+  rw [e]
+  exact (C19_encode_iff [⟨b.canon, v⟩] (by simp) _ 0).mpr rfl
+
+/-- what the property forbids: a hash that folds the extras *in insertion order* (any hash of the item
+    list that tells the two orders apart) gives two equal terms different hashes, and then a hash table
+    holding one does not find the other (`C19_hashdict_needs_contract`) -/
+theorem C19_order_hash_breaks (hs : String → Int) (hx : Extras → Int) (mix : Int → Int → Int)
+    (hmix : ∀ n x y, mix n x = mix n y → x = y) (a b : RawTerm) (hname : a.core.name = b.core.name)
+    (hord : hx a.extra ≠ hx b.extra) (v : Nat) :
+    orderHash hs hx mix a ≠ orderHash hs hx mix b ∧
+    hdGet (fun x y => RawTerm.pyEq x y) (orderHash hs hx mix) [(a, v)] b = none := by
+  have hne : orderHash hs hx mix a ≠ orderHash hs hx mix b := by
+    unfold orderHash; rw [hname]; exact fun e => hord (hmix _ _ _ e)
+  exact ⟨hne, (C19_hashdict_needs_contract _ _ a b v hne).1⟩
+
+/-- Python's call binding: a parameter given positionally is bound to the argument at its position, any
+    other to the keyword argument of its name (none: left to its default) -/
+theorem C19_call_binding {α} (params : List String) (hn : params.Nodup) (pos : List α) (kw : List (String × α))
+    (b : List (String × α)) (h : bindCall params pos kw = some b) (i : Nat) (hi : i < params.length) :
+    b.lookup params[i] = if hp : i < pos.length then some pos[i] else kw.lookup params[i] := by
+  unfold bindCall at h
+  split at h
+  · cases h
+  · split at h
+    · cases h
+      split
+      · rename_i hp
+        exact lookup_append_of_lookup_some _ _ _ _ (lookup_zip_getElem params pos hn i hi hp)
+      · rename_i hp
+        apply lookup_append_of_not_mem_keys
+        intro hk
+        have hmem := keys_zip_subset params pos _ hk
+        obtain ⟨j, hj, hje⟩ := List.getElem_of_mem hmem
+        have hjlt : j < pos.length := by
+          have : j < (params.take pos.length).length := hj
+          simp only [List.length_take] at this; omega
+        rw [List.getElem_take] at hje
+        have hjp : j < params.length := by
+          have : j < (params.take pos.length).length := hj
+          simp only [List.length_take] at this; omega
+        have := (List.getElem_inj (h₀ := hjp) (h₁ := hi) hn).mp hje
+        omega
+    · cases h
+
+/-- `find_tag(tags, label, term, default)` called positionally in the documented order binds exactly as the
+    call with keywords, in whatever order the keywords are written -/
+theorem C19_find_call_styles {α} (tags label term default : α) (kw : List (String × α))
+    (hkw : kw.Perm [("label", label), ("term", term), ("default", default)]) :
+    ∃ b₁ b₂, bindCall findTagSig [tags, label, term, default] [] = some b₁ ∧
+      bindCall findTagSig [tags] kw = some b₂ ∧
+      ∀ p ∈ findTagSig, b₁.lookup p = b₂.lookup p := by
+  have hkeys : (kw.map (·.1)).Perm ["label", "term", "default"] := by simpa using hkw.map (·.1)
+  have hnd : (kw.map (·.1)).Nodup := hkeys.nodup_iff.mpr (by decide)
+  have hall : (kw.all fun p => (findTagSig.drop 1).contains p.1) = true := by
+    rw [List.all_eq_true]
+    intro p hp
+    have : p.1 ∈ ["label", "term", "default"] := hkeys.subset (List.mem_map.mpr ⟨p, hp, rfl⟩)
+    simp only [findTagSig, List.drop_succ_cons, List.drop_zero, List.contains_eq_mem, decide_eq_true_eq]
+    exact this
+  have hb2 : bindCall findTagSig [tags] kw = some (findTagSig.zip [tags] ++ kw) := by
+    unfold bindCall
+    rw [if_neg (by simp [findTagSig])]
+    have : List.length [tags] = 1 := rfl
+    rw [this, hall, decide_eq_true hnd]
+    rfl
+  have hb1 : bindCall findTagSig [tags, label, term, default] [] =
+      some (findTagSig.zip [tags, label, term, default] ++ []) := by
+    simp [bindCall, findTagSig]
+  refine ⟨_, _, hb1, hb2, ?_⟩
+  have hsig : findTagSig.Nodup := by decide
+  intro p hp
+  obtain ⟨i, hi, rfl⟩ := List.getElem_of_mem hp
+  rw [C19_call_binding findTagSig hsig _ _ _ hb1 i hi, C19_call_binding findTagSig hsig _ _ _ hb2 i hi]
+  have hlook : ∀ k v, [("label", label), ("term", term), ("default", default)].lookup k = some v →
+      kw.lookup k = some v := by
+    intro k v hv
+    have hm : (k, v) ∈ kw := by
+      have : (k, v) ∈ [("label", label), ("term", term), ("default", default)] := by
+        revert hv
+        simp only [List.lookup_cons, List.lookup_nil]
+        intro hv
+        split at hv
+        · simp_all
+        · split at hv
+          · simp_all
+          · split at hv <;> simp_all
+      exact hkw.symm.subset this
+    -- lookup in a list with distinct keys finds the item
+    have : ∀ (l : List (String × α)), (l.map (·.1)).Nodup → (k, v) ∈ l → l.lookup k = some v := by
+      intro l hl hm
+      induction l with
+      | nil => cases hm
+      | cons q l ih =>
+        obtain ⟨a, c⟩ := q
+        simp only [List.map_cons, List.nodup_cons] at hl
+        by_cases hka : k = a
+        · subst hka
+          rcases List.mem_cons.mp hm with e | hm'
+          · cases e; simp
+          · exact absurd (List.mem_map.mpr ⟨(k, v), hm', rfl⟩) hl.1
+        · have hbq : (k == a) = false := by simpa using hka
+          rcases List.mem_cons.mp hm with e | hm'
+          · cases e; exact absurd rfl hka
+          · simp only [List.lookup_cons, hbq]; exact ih hl.2 hm'
+    exact this kw hnd hm
+  have h4 : i < 4 := by simpa [findTagSig] using hi
+  rcases i with _ | _ | _ | _ | i
+  · simp
+  · simp only [findTagSig, List.length_cons, List.length_nil]
+    simp only [show ¬ (1 < 1) by omega, dite_false, List.lookup_nil]
+    simp only [show (1 : Nat) < 0 + 1 + 1 + 1 + 1 by omega, dite_true]
+    exact (hlook "label" label (by simp)).symm
+  · simp only [findTagSig, List.length_cons, List.length_nil]
+    simp only [show ¬ (2 < 1) by omega, dite_false]
+    simp only [show (2 : Nat) < 0 + 1 + 1 + 1 + 1 by omega, dite_true]
+    exact (hlook "term" term rfl).symm
+  · simp only [findTagSig, List.length_cons, List.length_nil]
+    simp only [show ¬ (3 < 1) by omega, dite_false]
+    simp only [show (3 : Nat) < 0 + 1 + 1 + 1 + 1 by omega, dite_true]
+    exact (hlook "default" default rfl).symm
+  · omega
+
+/-- a history of calls answered through a memo table agrees, step by step, with the pure function iff the
+    memo key determines the answer (a cache keyed by the *full* input is invisible) … -/
+theorem C19_history_cache_sound {α β κ} [BEq κ] [LawfulBEq κ] (f : α → β) (p : α → κ)
+    (h : ∀ x y, p x = p y → f x = f y) (xs : List α) : memoRun f p [] xs = xs.map f :=
+  memoRun_sound f p h [] (by simp) xs
+
+/-- … and a cache keyed by a *part* of the input answers the second of two neighbours (same key, other
+    answer) wrongly: the history `x, y` tells it apart from the pure function -/
+theorem C19_history_cache_stale {α β κ} [BEq κ] [LawfulBEq κ] (f : α → β) (p : α → κ) (x y : α)
+    (hk : p x = p y) (hf : f x ≠ f y) : memoRun f p [] [x, y] = [f x, f x] ∧ memoRun f p [] [x, y] ≠ [x, y].map f := by
+  have : memoRun f p [] [x, y] = [f x, f x] := by
+    simp [memoRun, memoCall, hk]
+  refine ⟨this, ?_⟩
+  rw [this]
+  simp only [List.map_cons, List.map_nil, ne_eq, List.cons.injEq, and_true, true_and]
+  exact hf
+
+/-- an object that forgets its memoised hash whenever its content changes (or memoises nothing) answers
+    every `hash(obj)` of every history with the hash of the content it carries *at that moment* -/
+theorem C19_history_hash_now {α} (h : α → Int) (c : Cell α) (hc : ∀ v, c.memo = some v → v = h c.content)
+    (steps : List (CellStep α)) : ∀ o ∈ Cell.run h true c steps, o.1 = h o.2 := by
+  induction steps generalizing c with
+  | nil => simp [Cell.run]
+  | cons s ss ih =>
+    cases s with
+    | use =>
+      cases hm : c.memo with
+      | some v =>
+        have hv := hc v hm
+        simp only [Cell.run, Cell.step, hm]
+        intro o ho
+        rcases List.mem_cons.mp ho with e | ho
+        · rw [e]; exact hv
+        · exact ih c hc o ho
+      | none =>
+        simp only [Cell.run, Cell.step, hm]
+        intro o ho
+        rcases List.mem_cons.mp ho with e | ho
+        · rw [e]
+        · exact ih _ (by intro v hv; simp at hv; exact hv.symm) o ho
+    | assign x => simp only [Cell.run, Cell.step]; exact ih _ (by simp)
+    | copyUpdate x => simp only [Cell.run, Cell.step]; exact ih _ (by simp)
+    | rebuild x => simp only [Cell.run, Cell.step]; exact ih _ (by simp)
+
+/-- without invalidation (`cached_property` surviving an assignment or a `model_copy(update=…)`): use,
+    change, use again gives the old hash for the new content -/
+theorem C19_history_hash_stale {α} (h : α → Int) (x y : α) (hxy : h x ≠ h y) :
+    Cell.run h false ⟨x, none⟩ [.use, .assign y, .use] = [(h x, x), (h x, y)] ∧
+    Cell.run h false ⟨x, none⟩ [.use, .copyUpdate y, .use] = [(h x, x), (h x, y)] ∧
+    ¬ ∀ o ∈ Cell.run h false ⟨x, none⟩ [.use, .assign y, .use], o.1 = h o.2 := by
+  refine ⟨rfl, rfl, fun hall => hxy ?_⟩
+  exact hall (h x, y) (by simp [Cell.run, Cell.step])
+
+
 /-! ### non-vacuity -/
 section Examples
 def tm (label name : String) : Term :=
@@ -874,6 +1089,32 @@ example (H : PyHasher) (hfi : ∀ n : Int, H.float n = H.int n) :
     pyHash (tableOf [("Term", ["name"]), ("Feature", ["term", "value"])]) H featI
       = pyHash (tableOf [("Term", ["name"]), ("Feature", ["term", "value"])]) H featG :=
   C19_pyhash_respects_eq _ H hfi featI featG (by decide +kernel)
+
+-- follow-up 3
+def rawA : RawTerm := ⟨tm "species" "dwc:species", [("note", "n"), ("status", "s")]⟩
+def rawB : RawTerm := ⟨tm "species" "dwc:species", [("status", "s"), ("note", "n")]⟩
+def rawC : RawTerm := ⟨tm "species" "dwc:species", [("status", "s"), ("note", "m")]⟩
+example : rawA.wf ∧ rawB.wf := by unfold RawTerm.wf; decide
+example : rawA.pyEq rawB = true ∧ rawA.extra ≠ rawB.extra ∧ rawA.canon = rawB.canon := by decide
+example : rawA.pyEq rawC = false ∧ rawA.canon ≠ rawC.canon := by decide
+example : canonExtras [("status", "s"), ("note", "n")] = [("note", "n"), ("status", "s")] := by decide
+example : dictEqv [("a", "1")] [("a", "1"), ("b", "2")] = false ∧ dictEqv [("a", "1"), ("b", "2")] [("a", "1")] = false := by
+  decide
+-- a hash over the items in insertion order (here: the first key's length) separates the two equal terms
+example : orderHash (fun _ => 0) (fun x => ((x.head?.map (·.1.length)).getD 0 : Nat)) (· + ·) rawA
+    ≠ orderHash (fun _ => 0) (fun x => ((x.head?.map (·.1.length)).getD 0 : Nat)) (· + ·) rawB := by decide
+example : bindCall findTagSig [1, 2, 3, 4] [] = some [("tags", 1), ("label", 2), ("term", 3), ("default", 4)] := by decide
+example : bindCall findTagSig [1] [("default", 4), ("label", 2)] = some [("tags", 1), ("default", 4), ("label", 2)] := by
+  decide
+example : bindCall findTagSig [1, 2] [("label", 2)] = none ∧ bindCall findTagSig [1] [("key", 2)] = none ∧
+    bindCall findTagSig [1, 2, 3, 4, 5] [] = none ∧ bindCall findTagSig [1] [("term", 2), ("term", 3)] = none := by decide
+example : [("default", 4), ("label", 2), ("term", 3)].Perm [("label", 2), ("term", 3), ("default", 4)] := by decide
+-- a cache of `encode` keyed by the term's name and the value only: the neighbour is answered wrongly
+example : memoRun (fun t => encode [dog] t) (fun t => (t.term.name, t.value)) [] [dog, dog'] = [some 0, some 0] ∧
+    encode [dog] dog' = none := by decide
+example : memoRun (fun t => encode [dog] t) (fun t => t) [] [dog, dog', dog] = [some 0, none, some 0] := by decide
+example : Cell.run (fun (t : Tag) => (t.value.length : Int)) true ⟨dog, none⟩ [.use, .assign brown, .use, .copyUpdate cat, .use]
+    = [(3, dog), (5, brown), (3, cat)] := by decide
 end Examples
 
 end SE.Proofs.C19
